@@ -2744,6 +2744,38 @@ pub fn ctl_cases(r: &mut Rng, prop: &str, tier: &str) -> Vec<Case> {
             // one more step: what the first one left behind (enable state, return address) shows here
             c.push(Cmd::X, px);
             cases.push(c);
+            if v == 0 {
+                // an instruction that transfers control to ITSELF (JP $, JR $, DJNZ $, JP (HL) with HL = PC, a RET whose
+                // stacked word is its own address), executed once or twice, then interrupted: the pushed address is its own
+                let mut s = state_for(r, page, op);
+                s.top = 0xFFFF; s.rom = None; s.halt = false; s.int = None; s.nmi = false;
+                s.seed = SEEDS[1 + ri % 5];
+                s.pc = 0x0200 + (s.pc & 0x7FFF);
+                s.sp = 0xF000 | (s.sp & 0x0FFE);
+                s.ovr.clear();
+                let pc = s.pc;
+                let code = encode(page, op, 0xFE, v8(r), v8(r));
+                s.poke(pc, &code[..len]);
+                self_target(&mut s, page, 0);
+                s.iff1 = ri % 2 == 0; s.iff2 = s.iff1; s.im = 1;
+                s.poke(0x0066, &[0x00, 0xED, 0x45]);
+                s.poke(0x0038, &[0x00, 0xFB, 0xC9]);
+                let mut c = Case::new(format!("{}/self-irq", tagof(page, op)));
+                c.key = tagof(page, op);
+                c.push(sbox(s), P_NONE);
+                c.push(Cmd::X, px);
+                if ri % 3 == 0 {
+                    c.push(Cmd::X, px);
+                }
+                c.push(if ri % 2 == 0 { Cmd::I(0xFF) } else { Cmd::N }, P_NONE);
+                c.push(Cmd::X, px);
+                if pd != P_NONE {
+                    c.push(Cmd::D, pd);
+                }
+                c.push(Cmd::X, px);
+                c.push(Cmd::X, px);
+                cases.push(c);
+            }
         }
     }
     cases
@@ -2992,7 +3024,9 @@ pub fn rom_cases(r: &mut Rng, prop: &str, tier: &str) -> Vec<Case> {
         "C01" => (p_regs(), p_mem()),
         "C02" => (Proj { fmask: 0xD7, mode: Mode::Flags, ..NONE }, P_NONE),
         "C03" => (Proj { pc: true, sp: true, ..NONE }, p_mem()),
-        "C07" => (P_NONE, p_mem()),
+        "C07" | "C19" => (P_NONE, p_mem()),
+        "C05" => (Proj { r: false, dbg: 1, mode: Mode::Unknown, ..FULL }, p_mem()),
+        "C06" => (Proj { regs: true, sp: true, pc: true, ctl: true, ..NONE }, p_mem()),
         _ => return vec![],
     };
     let nrep = if quick(tier) { 1 } else { 4 };
@@ -3029,9 +3063,26 @@ pub fn rom_cases(r: &mut Rng, prop: &str, tier: &str) -> Vec<Case> {
                 base.pair(IXH).wrapping_add(sext(d_at(2))), base.pair(IYH).wrapping_add(sext(d_at(2))),
                 if page == Page::Base { nn1 } else { nn2 },
             ];
+            if is_block_repeat(page, op) || (page == Page::ED && matches!(op, 0xA0 | 0xA8)) {
+                // the fill idiom (destination one ahead of / behind the source) running into an obstacle: the bytes
+                // behind it must receive what the source holds THEN, not the fill byte
+                let up = op & 0x08 == 0;
+                let hl = base.pair(H);
+                base.set_pair(D, if up { hl.wrapping_add(1) } else { hl.wrapping_sub(1) });
+                base.set_pair(B, 6 + r.below(8) as u16);
+            }
+            let cands: [u16; 9] = if is_block_repeat(page, op) {
+                let de = base.pair(D);
+                let up = op & 0x08 == 0;
+                let step = |k: u16| if up { de.wrapping_add(k) } else { de.wrapping_sub(k) };
+                [step(2), step(3), step(1), cands[3], cands[4], step(4), cands[6], cands[7], step(0)]
+            } else {
+                cands
+            };
             for (ci, &c) in cands.iter().enumerate() {
+              for variant in [0usize, 1 + (ci + ri + rep) % 5] {
                 let mut s = base.clone();
-                match (ci + ri + rep) % 6 {
+                match variant {
                     0 => s.rom = Some((c, c)),
                     1 => s.rom = Some((c.wrapping_add(1), c.wrapping_sub(1))),
                     2 => s.rom = Some((c.wrapping_sub(1), c)),
@@ -3047,7 +3098,7 @@ pub fn rom_cases(r: &mut Rng, prop: &str, tier: &str) -> Vec<Case> {
                         }
                     }
                 }
-                let mut c2 = Case::new(format!("{}/rom{}", tagof(page, op), (ci + ri + rep) % 6));
+                let mut c2 = Case::new(format!("{}/rom{}", tagof(page, op), variant));
                 c2.key = tagof(page, op);
                 c2.push(sbox(s), P_NONE);
                 c2.push(Cmd::X, px);
@@ -3055,6 +3106,7 @@ pub fn rom_cases(r: &mut Rng, prop: &str, tier: &str) -> Vec<Case> {
                     c2.push(Cmd::D, pd);
                 }
                 cases.push(c2);
+              }
             }
         }
     }
